@@ -178,6 +178,9 @@ func ZZ_C03_aggregate() {
 		default:
 			sig = zz.Bytes(pfx+".raw", nw.sch.SigGroup.PointLen()+2)
 			unverified = true
+			// arbitrary bytes that are NOT some member's genuine partial for this round (a lucky guess of a
+			// valid partial is a valid partial and belongs to the first templates)
+			zz.Assume(nw.sch.ThresholdScheme.VerifyPartial(nw.group.PublicKey.PubPoly(nw.sch), nw.sch.DigestBeacon(&common.Beacon{Round: r, PreviousSig: prev}), sig) != nil)
 		}
 		pkt := &proto.PartialBeaconPacket{Round: r, PreviousSignature: prev, PartialSig: sig}
 		if len(base.puts) == 0 && counts && !valid[signer] {
